@@ -388,8 +388,55 @@ def prove_session_initialized(src_root, ex: Explorer):
     ex.run(path, 'session_initialized')
 
 
+def prove_candidates(src_root, ex: Explorer):
+    """candidate != child rests on the cache of proposed parents.  (a) _on_potential_parents only ADDS the proposed names (earlier
+    proposals stay candidates - a connection to them may still be open or arrive later); (b) _set_parent makes the peer the parent BEFORE
+    its first suspension, so a second candidate that completes meanwhile sees a parent and cannot be made parent as well."""
+    def adds(ctx: Ctx):
+        it = mk(src_root, ctx)
+        old = [sstr(ctx, 'earlier0'), sstr(ctx, 'earlier1')]
+        cache = list(old)
+        e1, e2 = sstr(ctx, 'proposed0'), sstr(ctx, 'proposed1')
+        entries = [Stub('entry', username=e1, ip='1.2.3.4', port=1), Stub('entry', username=e2, ip='1.2.3.5', port=2)]
+        msg = Stub('PotentialParents.Response', entries=entries)
+        settings = Stub('settings', debug=Stub('debug', search_for_parent=True))
+        net = Stub('network', create_peer_connection=Recorder('create_peer_connection', is_async=True))
+        dn = new(it, DN, 'DistributedNetwork', _settings=settings, _network=net, potential_parents=cache, _potential_parent_tasks=[])
+        it.natives['aioslsk.utils.task_counter'] = Native('task_counter', lambda it2, a, k: 1)
+        run(it, it.getattr(dn, '_on_potential_parents'), msg, Opaque('server'))
+        now = dn.attrs['potential_parents']
+        names = list(now) if isinstance(now, list) else None
+        ok = names is not None and all(any(x is o for x in names) for o in old) and any(x is e1 for x in names) and any(x is e2 for x in names)
+        ctx.prove('C13.candidates.only-added', ok, 'a new PotentialParents list must add its names to the candidates and keep the earlier ones '
+                  '(up to the capacity of the cache): a dropped candidate can be admitted as a child')
+        ctx.prove('C13.candidates.one-attempt-each', len(dn.attrs['_potential_parent_tasks']) == 2)
+    ex.run(adds, 'candidates-added')
+
+    def atomic(ctx: Ctx):
+        it = mk(src_root, ctx)
+        t = Tree(it, ctx, parent=False, n_children=ctx.choose(2, 'children'))
+        peer = t.extra
+        seen = []
+
+        def on_yield(it2, label):
+            if not seen:
+                seen.append(label)
+                ctx.prove('C13.set_parent.atomic', t.dn.attrs['parent'] is peer,
+                          f'_set_parent suspends on {label} before the peer is the parent: another candidate that completes meanwhile becomes parent too')
+            raise PathAbort()
+        it.aio.on_yield = on_yield
+        it.hooks[f'{DN}:DistributedNetwork._cancel_potential_parent_tasks'] = lambda it2, f, a, k: []
+        try:
+            run(it, it.getattr(t.dn, '_set_parent'), peer)
+        except PyRaise:
+            pass
+        if not seen:
+            ctx.prove('C13.set_parent.atomic', t.dn.attrs['parent'] is peer)
+    ex.run(atomic, 'set-parent-atomic')
+
+
 def items(src_root, tier):
-    return [('adv', None), ('check_parent', None), ('branch', 'level'), ('branch', 'root'), ('unset', None), ('admit', None),
+    return [('candidates', None), ('adv', None), ('check_parent', None), ('branch', 'level'), ('branch', 'root'), ('unset', None), ('admit', None),
             ('max_children', None), ('session', None)]
 
 
@@ -398,7 +445,9 @@ def run_item(src_root, item, tier):
     ex = Explorer()
     kind, arg = item
     try:
-        if kind == 'adv':
+        if kind == 'candidates':
+            prove_candidates(src_root, ex)
+        elif kind == 'adv':
             prove_adv(src_root, ex)
         elif kind == 'check_parent':
             prove_check_new_parent(src_root, ex)
